@@ -49,7 +49,7 @@ func runCase(t *testing.T, run *core.Run, name string, idx int, rng *rand.Rand) 
 		t.Fatalf("%s: world: %v", name, err)
 	}
 	defer w.Ch.Close()
-	blocks := core.Pick(30, 90)
+	blocks := core.Pick(30, 60)
 	var history []string
 	check := func(h uint64) bool {
 		probs, stats, err := refs.StakingProblems(w.Ch.Nodes[0].C.FSM.Store())
@@ -150,7 +150,7 @@ func TestCheck(t *testing.T) {
 	defer run.Finish()
 	run.MinDistinct = 3
 	run.Assume("double-sign slashes are exercised by C14; plugin-written records are out of scope; governance proposals are approved through the node's approve list (verif hook sets the vote deadline)")
-	n := core.Pick(16, 400)
+	n := core.Pick(16, 200)
 	run.Sharded(n, func(i int) {
 		name := fmt.Sprintf("chain/%d", i)
 		if run.Want(name) {
